@@ -62,3 +62,48 @@ Definition casc_ok (c : list (bool * list Z * list Z * list Z * list (Z * Z * bo
   | None => wexp =? -1
   end.
 Definition check_casc := mismatches casc_ok.
+
+(* ---- numbers ---- *)
+From V Require Import C12.NumberCss.
+Definition num_ok (c : list Z * list Z * bool) : bool :=
+  let '(t, out, changed) := c in
+  let '(m, ch) := mangleNumber t in zlist_eqb m out && Bool.eqb ch changed.
+Definition check_num := mismatches num_ok.
+
+Definition shift_ok (c : list Z * Z * bool * list Z) : bool :=
+  let '(t, off, ok, out) := c in
+  match shiftDot t off with
+  | Some s => ok && zlist_eqb s out
+  | None => negb ok
+  end.
+Definition check_shift := mismatches shift_ok.
+
+Definition dim_ok (c : list Z * list Z * list Z * list Z) : bool :=
+  let '(v, u, ov, ou) := c in
+  let '(mv, mu) := mangle_dimension_token v u in zlist_eqb mv ov && zlist_eqb mu ou.
+Definition check_dim := mismatches dim_ok.
+
+(* ---- rule trees: mangle_sheet against what api.Transform printed ---- *)
+From V Require Import C12.Mangle.
+Fixpoint tree_eqb (a b : rule) : bool :=
+  match a, b with
+  | RSel s1 d1, RSel s2 d2 => leqb (fun x y => s_id x =? s_id y) s1 s2 && leqb decl_eqb d1 d2
+  | RMedia q1 b1, RMedia q2 b2 => (q1 =? q2) && leqb tree_eqb b1 b2
+  | RCond t1 p1 b1, RCond t2 p2 b2 => (t1 =? t2) && (p1 =? p2) && leqb tree_eqb b1 b2
+  | RLayer n1 _ b1, RLayer n2 _ b2 => leqb zlist_eqb n1 n2 && leqb tree_eqb b1 b2
+  | ROpaque k1 i1, ROpaque k2 i2 => (k1 =? k2) && (i1 =? i2)
+  | RComment i1, RComment i2 => i1 =? i2
+  | _, _ => false
+  end.
+Definition mangle_ok (c : list rule * list rule) : bool :=
+  let '(i, o) := c in leqb tree_eqb (mangle_sheet i) o.
+Definition check_mangle := mismatches mangle_ok.
+
+(* ---- isConditionalImportRedundant: (earlier, later, Go result); a condition is [layer; supports; media] ids, 0 = absent ---- *)
+From V Require Import C12.ImportOrder.
+Definition mk_ic (l : list Z) : icond :=
+  let f := fun v => if v =? 0 then [] else [v] in
+  match l with [a; b; c] => mkIC (f a) (f b) (f c) | _ => mkIC [] [] [] end.
+Definition red_ok (c : list (list Z) * list (list Z) * bool) : bool :=
+  let '(e, l, r) := c in Bool.eqb (redundant (map mk_ic e) (map mk_ic l)) r.
+Definition check_red := mismatches red_ok.
